@@ -27,17 +27,30 @@ func spell(ch string, k int) string {
 		return "%" + hexL
 	case 3:
 		return "%25" + hexU
-	default:
+	case 4:
 		return "%2525" + hexU
+	// nested encodings that escape the hex digits of the escape itself (they are unreserved characters too)
+	case 5:
+		return "%" + escDigit(hexU[0]) + hexU[1:]
+	case 6:
+		return "%" + hexU[:1] + escDigit(hexU[1])
+	case 7:
+		return "%25" + escDigit(hexU[0]) + escDigit(hexU[1])
+	default:
+		return "%" + hexU[:1] + "%25" + fmt.Sprintf("%02X", hexU[1])
 	}
 }
+
+const nSpellings = 9
+
+func escDigit(d byte) string { return fmt.Sprintf("%%%02X", d) }
 
 // bodies: every body of <= 2 unreserved characters, every character in each of 5 spellings (1 + 35 + 1225).
 func allBodies() []string {
 	out := []string{""}
 	var one []string
 	for _, ch := range unreserved {
-		for k := 0; k < 5; k++ {
+		for k := 0; k < nSpellings; k++ {
 			one = append(one, spell(ch, k))
 		}
 	}
@@ -53,7 +66,7 @@ func allBodies() []string {
 func smallBodies() []string {
 	out := []string{""}
 	for _, ch := range unreserved {
-		for k := 0; k < 5; k++ {
+		for k := 0; k < nSpellings; k++ {
 			out = append(out, spell(ch, k))
 		}
 	}
@@ -340,15 +353,15 @@ var c18Variations = []variation{
 			c := s[q]
 			if strings.IndexByte("aZ7-._~", c) >= 0 {
 				idx++
-				for sp := 1; sp <= 4; sp++ {
-					if (idx-1)*4+sp == k {
+				for sp := 1; sp < nSpellings; sp++ {
+					if (idx-1)*(nSpellings-1)+sp == k {
 						return s[:q] + spell(string(c), sp) + s[q+1:], true
 					}
 				}
 			}
 		}
 		return "", false
-	}, 16},
+	}, 4 * (nSpellings - 1)},
 	{"dot-segment", true, func(s string, k int) (string, bool) {
 		i, j := pathSpan(s)
 		p := s[i:j]
@@ -463,7 +476,7 @@ func init() {
 		ID:    "C17",
 		Level: "exploration",
 		Rule: "(a) WhatWg, WhatWgSortQuery on the C01 input spaces (prefix x Sigma^<=k, Sigma^<=k x bases as absolute strings, slot product, WPT inputs) and all 144 option-composed profiles (remove-user-info x remove-port x remove-fragment x sort x default-scheme x repeated-decoding) on a 14k-input space; " +
-			"(b) GoogleSafeBrowsing and Semantic on the ordinary-web-URL grammar enumerated completely within a slot-deviation bound: scheme(5) userinfo(3) host(5) port(3) two path segments, two query pairs, fragment; text slots range over all 1261 bodies of <=2 unreserved characters in 5 spellings each (literal, %XX, %xx, %25XX, %2525XX) for single deviations and over a 48-body menu when several slots deviate. " +
+			"(b) GoogleSafeBrowsing and Semantic on the ordinary-web-URL grammar enumerated completely within a slot-deviation bound: scheme(5) userinfo(3) host(5) port(3) two path segments, two query pairs, fragment; text slots range over all bodies of <=2 unreserved characters in 9 spellings each (4033 bodies) (literal, %XX, %xx, %25XX, %2525XX, and four spellings that escape the hex digits of the escape itself: %%34 1, %4%31, %25%34%31, %4%2531) for single deviations and over a 48-body menu when several slots deviate. " +
 			"Oracle: canon(canon(x)) succeeds and equals canon(x). non-trivial = inputs whose first canonicalization succeeds",
 		Assume:  []string{"outside the stated domains the experimental profiles are known not to be idempotent (by the property's own wording)"},
 		Trusted: []string{},
@@ -543,7 +556,7 @@ func init() {
 	register(&fw.Check{
 		ID:    "C18",
 		Level: "exploration",
-		Rule: "metamorphic, exhaustive within bounds: for every plain URL of the ordinary-web-URL grammar (slot-deviation bound t over plain bodies) every combination of at most v of the 8 listed variation kinds (scheme case, host case, default/empty port, inserted './', 'x/../', '%2e/' ... at every path position, tab/newline at 3 positions, surrounding whitespace, empty fragment, re-spelling of each unreserved character as %XX/%xx/%25XX/%2525XX), every alternative of each, is applied and must canonicalize to the same string as the plain spelling: " +
+		Rule: "metamorphic, exhaustive within bounds: for every plain URL of the ordinary-web-URL grammar (slot-deviation bound t over plain bodies) every combination of at most v of the 8 listed variation kinds (scheme case, host case, default/empty port, inserted './', 'x/../', '%2e/' ... at every path position, tab/newline at 3 positions, surrounding whitespace, empty fragment, re-spelling of each unreserved character in 8 escaped forms incl. escapes of the escape's own hex digits), every alternative of each, is applied and must canonicalize to the same string as the plain spelling: " +
 			"all kinds under GoogleSafeBrowsing, Semantic and composed profiles with repeated decoding; the kinds the URL Standard normalises under WhatWg, WhatWgSortQuery and the composed profiles without repeated decoding. non-trivial = applicable (URL, variation combination, profile) triples",
 		Assume:  []string{"variation classes as listed in the statement"},
 		Trusted: []string{},
